@@ -888,4 +888,53 @@ example : (restart w7).map (fun r => (r.topoCounter, r.total)) = some (9, 9) := 
     snapshot set is what the validator reports (MISSING ROUND) — the restart is refused -/
 example : (restart (runOk (startNewRound w6 2 2 (.final 2 1 []) wX))).isNone = true := by decide
 
+
+/-! ### duplicated finalization: one transaction in snapshots of two chains
+
+`Ledger.finalized` only asks that every transaction of a stored snapshot HAS a FINALIZATION
+record, and `Ledger.named` that the record names a stored snapshot containing the transaction —
+not that it names the snapshot at hand: `finalizeTransaction` keeps the first one. The model's
+validator follows `validateSnapshotEntriesForNode`: a record that names another snapshot is
+logged ("DUPLICATED FINALIZATION") and NOT counted invalid; only a named snapshot that does not
+contain the transaction is. `validate_ok` / `restart_ok` therefore cover such states without any
+extra hypothesis; the state below is one, and it is reachable. -/
+
+def dS10 : Snap := { id := 10, node := 2, round := 1, ts := 1002000000, txs := [9] }
+def dDep : Tx := { id := 9, kind := 0, ref0 := 0, outs := 1, key := 1, inputs := [] }
+def dS9 : Snap := { id := 9, node := 1, round := 1, ts := 1001000000, txs := [9] }
+def d1 : KV := runOk (lockInputs (genesis 7) dDep)
+def d2 : KV := runOk (writeTx d1 dDep)
+def d3 : KV := runOk (writeSnapshot d2 dS9 8)
+def d4 : KV := runOk (writeSnapshot d3 dS10 9)
+def d5 : KV := runOk (startNewRound d4 2 2 (.final 2 1 [10]) (.final 3 0 [4]))
+
+theorem duplicate_reach : LReach d5 := by
+  have ord : ∀ (kv : KV) (s : Snap) (o : Nat), s.txs = [9] → findTx kv 9 = some dDep →
+      (∀ e ∈ kv.topo, e.1 < o) → SnapProto kv s o := by
+    intro kv s o hs hf hn
+    refine ⟨hn, ?_⟩
+    intro t tx h1 h2 h3
+    rw [hs] at h1
+    have ht : t = 9 := by simp at h1; exact h1.symm
+    subst ht
+    rw [hf] at h2; injection h2 with h2; subst h2
+    simp [dDep, consensusKind] at h3
+  have r1 : LReach d1 := LReach.step (LReach.genesis 7) (LStep.lock (t := dDep) rfl)
+  have r2 : LReach d2 := LReach.step r1 (LStep.wtx (t := dDep) rfl)
+  have r3 : LReach d3 := LReach.step r2 (LStep.snap (s := dS9) (o := 8) rfl (ord d2 dS9 8 rfl (by decide) (by decide)))
+  have r4 : LReach d4 := LReach.step r3 (LStep.snap (s := dS10) (o := 9) rfl (ord d3 dS10 9 rfl (by decide) (by decide)))
+  exact LReach.step r4 (LStep.round (c := 2) (n := 2) (self := .final 2 1 [10]) (ext := .final 3 0 [4]) rfl
+    ⟨by decide, by decide⟩)
+
+/-- the second snapshot (10, chain 2) holds transaction 9 whose FINALIZATION names snapshot 9 of
+    chain 1, and round 1 of chain 2 is below its head: the validator visits it (9 entries) … -/
+theorem duplicate_state : d5.fins.lookup 9 = some 9 ∧ (findSnap d5 10).map (·.txs) = some [9] ∧
+    (d5.rounds.lookup (.head 2)).map (·.number) = some 2 := by decide
+
+/-- … and reports nothing invalid; the node restarts (instance of `restart_ok_every_prefix`) -/
+theorem duplicate_restarts : (restart d5).map (fun r => (r.topoCounter, r.total)) = some (9, 9) := by decide
+
+example : ∃ r, restart d5 = some r ∧ ∃ total, validateGraph d5 10 = some (total, 0) :=
+  restart_ok_every_prefix duplicate_reach
+
 end Mixin.C22
